@@ -584,7 +584,7 @@ def gen_mutation(r, text, tokenize):
         li, c0, c1, tx, sym = r.choice(cands)
         pool = sorted({sp[3] for sp in cands})
         if cls == "Number":
-            pool += ["0", "1", "7", "8", "63", "64", "65", "255", "256", "4294967296", "18446744073709551615",
+            pool += ["0", "1", "7", "8", "63", "64", "65", "255", "256", "2000", "18446744073709551615",
                      "18446744073709551616", "true", "x", "-1", "(0-1)", "$size_in_bytes", "$next"]
         elif cls == "CamelWord":
             pool += ["UInt", "Int", "Flag", "Bcd", "Float", "Nope"]
